@@ -330,24 +330,38 @@ def _scalar(v):
 
 
 def match_unordered(got_rows, exp_rows, declared, sig):
-    """Multiset matching of unordered output; bucketed on the first key field to stay linear on big cases."""
+    """Multiset matching of unordered output against expected rows that may contain 'any of' placeholders:
+    a maximum bipartite matching (augmenting paths), bucketed on the first key field to stay fast on big cases."""
     bf = next((f for f in ('sk1', 'tk1') if f in declared), None)
-    buckets = collections.defaultdict(list)
-    wild = []
+    if len(exp_rows) <= 400:
+        bf = None               # small cases: one global matching (placeholders may stand for any key value)
+    groups = collections.defaultdict(lambda: ([], []))
     for e in exp_rows:
         k = _scalar(e.get(bf)) if bf else None
-        (buckets[k] if k is not None else wild).append(e)
+        groups[k if k is not None else '*'][1].append(e)
     for g in got_rows:
         k = _scalar(g.get(bf)) if bf else None
-        hit = None
-        for pool in ((buckets.get(k, []) if k is not None else []), wild):
-            hit = next((i for i, e in enumerate(pool) if row_match(g, e, declared)), None)
-            if hit is not None:
-                pool.pop(hit)
-                break
-        if hit is None:
-            cands = (buckets.get(k, []) + wild)[:4] or [e for b in buckets.values() for e in b][:4]
-            raise Violation(sig, {'got': g, 'candidates': [_plain(e) for e in cands]})
+        key = k if (k is not None and k in groups) else '*'
+        groups[key][0].append(g)
+    for key, (gots, exps) in groups.items():
+        if key != '*' and len(gots) == len(exps) == 1:
+            if row_match(gots[0], exps[0], declared):
+                continue
+        adj = [[j for j, e in enumerate(exps) if row_match(g, e, declared)] for g in gots]
+        match_e = {}
+
+        def augment(i, seen):
+            for j in adj[i]:
+                if j in seen:
+                    continue
+                seen.add(j)
+                if j not in match_e or augment(match_e[j], seen):
+                    match_e[j] = i
+                    return True
+            return False
+        for i, g in enumerate(gots):
+            if not augment(i, set()):
+                raise Violation(sig, {'got': g, 'candidates': [_plain(e) for e in exps[:4]]})
 
 
 def row_match(got, exp, declared):
